@@ -13,6 +13,8 @@
 (*   [k |-> "un",  op, x]          op \in {"+", "-", ".not."}                  *)
 (*   [k |-> "bin", op, l, r]       op \in BinOps                               *)
 (*   [k |-> "err", why, at]        not an expression                           *)
+(* (C17 solution trees additionally use the binary op "exdiv": exact quotient, *)
+(*  defined only where the division leaves no remainder; it has no syntax.)    *)
 (* Tokens (tuples): <<"id",name>> <<"op",sym>> <<"lp","(">> <<"rp",")">>       *)
 (*   <<"cm",",">> <<"pc","%">> <<"lit",ty,v,kd>>                               *)
 EXTENDS Integers, Sequences, FiniteSets, TLC
